@@ -22,6 +22,8 @@ Opts == { [method |-> m, level |-> lv, large |-> lg, perm |-> NoPerm, dt |-> DT,
             m \in {0, 8, 99}, lv \in {NoLevel, 99}, lg \in BOOLEAN }
 EncOpts == { [method |-> m, level |-> NoLevel, large |-> FALSE, perm |-> 365, dt |-> DT, enc |-> TRUE] : m \in {0, 8} }
 Opts0 == { [method |-> 0, level |-> NoLevel, large |-> lg, perm |-> NoPerm, dt |-> DT, enc |-> FALSE] : lg \in BOOLEAN }
+\* the password option on the other entry-creating calls (defect D21: ending extra data on such an entry used to panic)
+EncOpts0 == { [method |-> 0, level |-> NoLevel, large |-> FALSE, perm |-> 365, dt |-> DT, enc |-> TRUE] }
 Chunks == {0, 3}
 XToks == { [id |-> 48879, dsz |-> 1, asz |-> 1, hl |-> 4, h |-> "x"],     \* valid
            [id |-> 1,     dsz |-> 0, asz |-> 0, hl |-> 4, h |-> "z"],     \* ZIP64 id
@@ -46,8 +48,8 @@ Call(name, args) == last' = [op |-> name, a |-> args]
 Init == w = Init0 /\ res = "ok" /\ last = [op |-> "New", a |-> <<>>]
 Next ==
    \/ \E nm \in Names, o \in Opts \cup EncOpts : Room /\ StartFile(nm, o, CS) /\ Call("StartFile", <<nm, o>>)
-   \/ \E nm \in Names2, o \in Opts : Room /\ StartFileExtra(nm, o, CS) /\ Call("StartFileExtra", <<nm, o>>)
-   \/ \E nm \in Names1, o \in Opts0, a \in Aligns :
+   \/ \E nm \in Names2, o \in Opts \cup EncOpts0 : Room /\ StartFileExtra(nm, o, CS) /\ Call("StartFileExtra", <<nm, o>>)
+   \/ \E nm \in Names1, o \in Opts0 \cup EncOpts0, a \in Aligns :
          Room /\ StartFileAligned(nm, o, a, CS, "pad") /\ Call("StartFileAligned", <<nm, o, a>>)
    \/ \E k \in Chunks : /\ w.stats.len + k <= Thr32 + 3 /\ w.gap + k <= 3
                         /\ ~w.wtef
@@ -56,8 +58,8 @@ Next ==
    \/ \E t \in XToks : w.wtef /\ Len(w.xbuf) < MaxX /\ WriteData(0, [len |-> 0, crc |-> ZeroCrc], w.xbuf \o <<t>>) /\ Call("WriteExtra", <<t>>)
    \/ EndExtra /\ Call("EndExtra", <<>>)
    \/ EndLocalStartCentral /\ Call("EndLocalStartCentral", <<>>)
-   \/ \E nm \in Names, o \in Opts0 : Room /\ AddDir(DirName(nm), o, CS) /\ Call("AddDir", <<nm, o>>)
-   \/ \E nm \in Names2, o \in Opts0 : Room /\ AddSymlink(nm, [len |-> 2, crc |-> "t2"], o, CS) /\ Call("AddSymlink", <<nm, o>>)
+   \/ \E nm \in Names, o \in Opts0 \cup EncOpts0 : Room /\ AddDir(DirName(nm), o, CS) /\ Call("AddDir", <<nm, o>>)
+   \/ \E nm \in Names2, o \in Opts0 \cup EncOpts0 : Room /\ AddSymlink(nm, [len |-> 2, crc |-> "t2"], o, CS) /\ Call("AddSymlink", <<nm, o>>)
    \/ \E nm \in Names1, s \in Srcs : Room /\ RawCopy(nm, s, CS) /\ Call("RawCopy", <<nm, s>>)
    \/ \E c \in Comments : SetComment(c) /\ Call("SetComment", <<c>>)
    \/ Flush /\ Call("Flush", <<>>)
